@@ -408,6 +408,9 @@ J sched_gen(std::uint64_t seed, int tier, long) {
     c.set("tasks", tasks);
     c.set("sched_seed", J((unsigned long long)r.next()));
     c.set("hook_yields", r.chance(0.7) ? (int)r.range(5, 60) : 0);
+    // cold runs: the process has never dispatched or built a pointer for this
+    // policy before the threads start, so first-use paths run concurrently
+    c.set("cold", r.chance(0.08) ? 1 : 0);
     return c;
 }
 
@@ -426,6 +429,7 @@ MiniOutcome sched_run(const J& c) {
     };
     Session ses(cx.plan, eo);
     int setup = cx.plan.setup_events;
+    bool cold = c.geti("cold", 0) != 0;
     for (int i = 0; i < setup; ++i)
         if (!ses.step((std::size_t)i))
             break;
@@ -531,10 +535,13 @@ MiniOutcome sched_run(const J& c) {
             ts.expect.push_back(x);
         }
         // the sequential table: every op once, before any thread exists
-        for (std::size_t i = 0; i < ts.ops.size(); ++i)
-            ts.seq.push_back(run_op(cx, ts.ops[i], ts.expect[i], held_cls));
-        for (int k = 2 * t; k <= 2 * t + 1; ++k)
-            cx.A->vp_drop(k);
+        // (cold runs build it after the threads have finished instead)
+        if (!cold) {
+            for (std::size_t i = 0; i < ts.ops.size(); ++i)
+                ts.seq.push_back(run_op(cx, ts.ops[i], ts.expect[i], held_cls));
+            for (int k = 2 * t; k <= 2 * t + 1; ++k)
+                cx.A->vp_drop(k);
+        }
         ts.par.resize(ts.ops.size());
     }
     for (auto& ts : scripts)
@@ -604,6 +611,26 @@ MiniOutcome sched_run(const J& c) {
         th.join();
     yorel::yomm2::verif::hooks.yield = nullptr;
 
+    if (cold) {
+        for (int t = 0; t < ncallers; ++t) {
+            auto& ts = scripts[t];
+            int held_cls[MAXVP];
+            for (auto& h : held_cls)
+                h = -1;
+            for (std::size_t i = 0; i < ts.ops.size(); ++i)
+                ts.seq.push_back(run_op(cx, ts.ops[i], ts.expect[i], held_cls));
+            for (int k = 2 * t; k <= 2 * t + 1; ++k)
+                cx.A->vp_drop(k);
+        }
+        for (auto& ts : scripts)
+            for (std::size_t i = 0; i < ts.seq.size(); ++i)
+                if (ts.seq[i].bad) {
+                    o.counters["sequential_mismatch_other_property"] = 1;
+                    ses.finish();
+                    return o;
+                }
+        o.counters["cold_runs"] = 1;
+    }
     if (checksum_bad)
         fail("published-data-changed",
              "data published by update for policy " + cx.plan.pols[0] +
@@ -712,6 +739,11 @@ std::vector<J> sched_shrinks(const J& c) {
         d.set("hook_yields", 0);
         out.push_back(d);
     }
+    if (c.geti("cold", 0)) {
+        J d = c;
+        d.set("cold", 0);
+        out.push_back(d);
+    }
     return out;
 }
 
@@ -742,8 +774,10 @@ MiniEngine sched_engine() {
         s.set("caller_tasks", t);
         s.set("sched_seed", J((unsigned long long)c.getu("sched_seed", 0)));
         s.set("hook_yields", c.geti("hook_yields", 0));
+        s.set("cold", c.geti("cold", 0));
         return s;
     };
+    e.pristine = [](const J& c) { return c.geti("cold", 0) != 0; };
     return e;
 }
 
